@@ -44,6 +44,7 @@ def subspaces(tier):
     out += C.structure_subspaces(D.shapes(3, 3), 2, True, only_flexible=True, mode="plain")
     for sh, ms in (([1, 1], [[0], [1]]), ([2, 1], [[0], [1], [0]])):
         out.append(dict(shape=sh, machines=ms, mode="many"))
+    out += C.wide_subspaces(mode="plain", pairs=((1, 8), (4, 5))) + C.tall_subspaces(mode="plain")
     structs = [([1, 1], [[0], [0]]), ([2, 1], [[0], [1], [1]]), ([1, 1], [[0], [1]]), ([2, 1], [[0], [1], [0]]),
                ([1, 1], [[0, 1], [0]]), ([2], [[0, 1], [1]])]
     for i, (sh, ms) in enumerate(structs):
